@@ -507,6 +507,7 @@ class CallMixin:
         if st.binder and not (c.returns_expr is not None or c.pure) and st.mode != "spec":
             raise Unsupported(f"call of non-functional {c.key} inside a comprehension / generator body", n)
         self._cur_call_state = st
+        self._last_called = c
         bound = self.bind_params(c, args, kwargs, n)
         env = self.spec_env_for_call(c, bound, st)
         self.stats["calls"] += 1
@@ -652,13 +653,24 @@ class CallMixin:
         """`await e`: evaluate e (a call with a contract, flagged awaited); then the interference
         point: shared state is havocked under the rely relation, and CancelledError may be delivered."""
         inner = n.value
-        for st1, v in self.evx(inner, st.set_meta("awaiting", True), sink):
-            st1 = st1.set_meta("awaiting", False)
-            yield from self.interference(st1, v, sink, n)
-
-    def interference(self, st, v, sink, n):
-        cur = self.current
         model = self.async_model
         if model is None:
             raise Unsupported("await without a declared concurrency model", n)
-        yield from model(self, st, v, sink, n)
+        # exceptions raised by the awaited operation itself also pass an interference point
+        inner_sink = []
+        self._last_called = None
+        results = list(self.evx(inner, st.set_meta("awaiting", True), inner_sink))
+        lc = self._last_called
+        if lc is not None and lc.is_async:
+            # awaiting a coroutine function that is itself under contract: it runs synchronously up to ITS first
+            # suspension; interference and cancellation points are the ones inside it (its own contract)
+            sink.extend(inner_sink)
+            for st1, v in results:
+                yield st1.set_meta("awaiting", False), v
+            return
+        for est, exc in inner_sink:
+            sink.append((model.interfere(self, est.set_meta("awaiting", False), n), exc))
+        # delivery of CancelledError at this suspension point (the awaited operation did not complete)
+        model.cancelled(self, st, sink, n)
+        for st1, v in results:
+            yield model.interfere(self, st1.set_meta("awaiting", False), n), v
